@@ -29,6 +29,7 @@ type camPlan struct {
 	packets  int
 	gap      time.Duration
 	endAfter int // during streaming (step 6): act after this many packets
+	renonce  int    // digest only: at this handshake step (3 SETUP video, 4 SETUP audio, 5 PLAY) the nonce has expired: one more 401 with a new nonce
 	sdp      string // body of the DESCRIBE answer ("" = the clean H.264+AAC description)
 }
 
@@ -52,6 +53,8 @@ type fakeCam struct {
 	sawClose   bool // the server side closed / the connection ended
 	faultFired bool
 	playing    bool
+	nonce      string // current digest nonce ("" = camNonce)
+	renonced   bool
 	done       chan struct{}
 	peer       *sim.Conn // the pull client's end of the connection
 }
@@ -81,8 +84,12 @@ func (c *fakeCam) verify(m *oracle.WireMsg) (present, ok bool) {
 				f[kv[:i]] = strings.Trim(kv[i+1:], `"`)
 			}
 		}
-		want := md5hex(md5hex(c.plan.user+":"+camRealm+":"+c.plan.pw) + ":" + camNonce + ":" + md5hex(m.Method+":"+f["uri"]))
-		return true, f["username"] == c.plan.user && f["realm"] == camRealm && f["nonce"] == camNonce && f["response"] == want && f["uri"] == m.URL
+		nonce := camNonce
+		if c.nonce != "" {
+			nonce = c.nonce
+		}
+		want := md5hex(md5hex(c.plan.user+":"+camRealm+":"+c.plan.pw) + ":" + nonce + ":" + md5hex(m.Method+":"+f["uri"]))
+		return true, f["username"] == c.plan.user && f["realm"] == camRealm && f["nonce"] == nonce && f["response"] == want && f["uri"] == m.URL
 	}
 	return true, false
 }
@@ -136,6 +143,13 @@ func (c *fakeCam) serve() {
 			step = 5
 		}
 		cseq := m.Header["cseq"]
+		if c.plan.auth == "digest" && c.plan.renonce == step && !c.renonced {
+			// the nonce has expired (RFC 2617 "stale"): the next request, although correctly signed for the old nonce, is
+			// challenged once more with a new one
+			c.renonced = true
+			c.nonce = "9a8b7c6d5e4f3021"
+			c.w.Fault("camera-nonce-expired@" + camSteps[step])
+		}
 		if c.plan.auth != "" {
 			present, ok := c.verify(m)
 			if present && ok && c.plan.auth != "repeated" {
@@ -147,7 +161,11 @@ func (c *fakeCam) serve() {
 				c.challenges++
 				h := map[string]string{"WWW-Authenticate": `Basic realm="` + camRealm + `"`}
 				if c.plan.auth == "digest" || (c.plan.auth == "repeated" && c.id%2 == 0) {
-					h["WWW-Authenticate"] = `Digest realm="` + camRealm + `", nonce="` + camNonce + `"`
+					nonce := camNonce
+					if c.nonce != "" {
+						nonce = c.nonce
+					}
+					h["WWW-Authenticate"] = `Digest realm="` + camRealm + `", nonce="` + nonce + `"`
 				}
 				if c.reply(401, "Unauthorized", cseq, h, "") != nil {
 					return
